@@ -29,6 +29,9 @@ def run(lines, out, args):
 
     def key(t):
         n = t[1:]
+        if t == "e":
+            from zope.interface import directlyProvidedBy
+            return directlyProvidedBy(object())       # the shared empty declaration
         if t[0] == "i":
             return st["ifs"][int(n)]
         if t[0] == "c":
